@@ -1,0 +1,319 @@
+//go:build verif
+
+// Contracts for package ge25519 (group operations on the twisted Edwards curve
+// -x^2 + y^2 = 1 + d x^2 y^2 over GF(2^255-19)).
+// Comment-only file; the //@ lines are read by /verif/govc.
+//
+// Two levels:
+//  * field level (proved of the code): every output coordinate is congruent mod P
+//    to a stated polynomial of the input coordinates, every field-operation call
+//    site respects the callee's magnitude precondition, outputs lie in stated
+//    magnitude classes, and t*z == x*y ("tvalid") where a full point is produced;
+//  * group level: for the leaf formula functions the statement "these polynomials
+//    implement the group law" is an ASSUMED postcondition (assume-ensures, bridge
+//    lemmas B1..B12 of DESIGN.md); for composite functions the group-level
+//    postcondition is proved from the callees' contracts.
+
+package ge25519
+
+//@ config any
+//@ const D = 37095705934669439343138083508754565189542113879843219016388785533085940283555
+//@ const D2 = (2 * D) % P
+//@ const SQRTM1 = 19681161376707505956807079304988542015446066515923890162744021073123829784752
+//@ usort Pt
+//@ ufun pt3(Int, Int, Int) Pt
+//@ ufun pt11(Int, Int, Int, Int) Pt
+//@ ufun ptN(Int, Int, Int) Pt
+//@ ufun ptPN(Int, Int, Int, Int) Pt
+//@ ufun padd(Pt, Pt) Pt
+//@ ufun psub(Pt, Pt) Pt
+//@ ufun pneg(Pt) Pt
+//@ ufun pdbl(Pt) Pt
+//@ ufun mulB(Int) Pt
+//@ ufun lc2(Pt, Int, Int) Pt
+//@ ufun isneutral(Pt) Bool
+//@ spec fe(x) = fval(x) % P
+//@ spec P3(g) = pt3(fe(g.x), fe(g.y), fe(g.z))
+//@ spec P11(g) = pt11(fe(g.x), fe(g.y), fe(g.z), fe(g.t))
+//@ spec PN(g) = ptN(fe(g.ysubx), fe(g.xaddy), fe(g.t2d))
+//@ spec PPN(g) = ptPN(fe(g.ysubx), fe(g.xaddy), fe(g.z), fe(g.t2d))
+//@ spec smul8(X) = pdbl(pdbl(pdbl(X)))
+//@ spec tvalid(g) = cong(fval(g.t) * fval(g.z), fval(g.x) * fval(g.y), P)
+//@ spec red3(g) = mag(g.x, RED) && mag(g.y, RED) && mag(g.z, RED)
+//@ spec red4(g) = mag(g.x, RED) && mag(g.y, RED) && mag(g.z, RED) && mag(g.t, RED)
+//@ spec mulok4(g) = mulok(g.x) && mulok(g.y) && mulok(g.z) && mulok(g.t)
+//@ spec rednb(g) = mag(g.ysubx, RED) && mag(g.xaddy, RED) && mag(g.t2d, RED)
+//@ spec okpn(g) = mag(g.ysubx, SUB1) && mag(g.xaddy, ADD1) && mag(g.z, RED) && mag(g.t2d, RED)
+//@ spec X(g) = fval(g.x)
+//@ spec Y(g) = fval(g.y)
+//@ spec Z(g) = fval(g.z)
+//@ spec T(g) = fval(g.t)
+
+// ---------------- conversions ----------------
+
+//@ func p1p1ToPartial(r, p)
+//@   requires mulok4(*p)
+//@   modifies r.x, r.y, r.z
+//@   ensures red3(*r)
+//@   ensures cong(X(*r), X(*p) * T(*p), P) && cong(Y(*r), Y(*p) * Z(*p), P) && cong(Z(*r), Z(*p) * T(*p), P)
+//@   assume-ensures P3(*r) == P11(*p)
+
+//@ func p1p1ToFull(r, p)
+//@   requires mulok4(*p)
+//@   modifies *r
+//@   ensures red4(*r) && tvalid(*r)
+//@   ensures cong(X(*r), X(*p) * T(*p), P) && cong(Y(*r), Y(*p) * Z(*p), P) && cong(Z(*r), Z(*p) * T(*p), P) && cong(T(*r), X(*p) * Y(*p), P)
+//@   assume-ensures P3(*r) == P11(*p)
+
+//@ func fullToPniels(r, p)
+//@   requires red4(*p) && tvalid(*p)
+//@   modifies *r
+//@   ensures okpn(*r)
+//@   ensures cong(fval(r.ysubx), Y(*p) - X(*p), P) && cong(fval(r.xaddy), Y(*p) + X(*p), P) && r.z == p.z && cong(fval(r.t2d), T(*p) * D2, P)
+//@   assume-ensures PPN(*r) == P3(*p)
+
+// ---------------- adding & doubling ----------------
+
+//@ func addP1p1(r, p, q)
+//@   alias p==q
+//@   requires red4(*p) && tvalid(*p) && red4(*q) && tvalid(*q)
+//@   modifies *r
+//@   ensures mag(r.x, SUB1) && mag(r.y, ADD1) && mag(r.z, AB) && mag(r.t, AB)
+//@   ensures cong(X(*r), (Y(*p) + X(*p)) * (Y(*q) + X(*q)) - (Y(*p) - X(*p)) * (Y(*q) - X(*q)), P)
+//@   ensures cong(Y(*r), (Y(*p) + X(*p)) * (Y(*q) + X(*q)) + (Y(*p) - X(*p)) * (Y(*q) - X(*q)), P)
+//@   ensures cong(Z(*r), 2 * Z(*p) * Z(*q) + T(*p) * T(*q) * D2, P)
+//@   ensures cong(T(*r), 2 * Z(*p) * Z(*q) - T(*p) * T(*q) * D2, P)
+//@   assume-ensures P11(*r) == padd(P3(*p), P3(*q))
+
+//@ func doubleP1p1(r, p)
+//@   requires red3(*p)
+//@   modifies *r
+//@   ensures mag(r.x, AB) && mag(r.y, ADD1) && mag(r.z, SUB1) && mag(r.t, AB)
+//@   ensures cong(X(*r), 2 * X(*p) * Y(*p), P)
+//@   ensures cong(Y(*r), Y(*p) * Y(*p) + X(*p) * X(*p), P)
+//@   ensures cong(Z(*r), Y(*p) * Y(*p) - X(*p) * X(*p), P)
+//@   ensures cong(T(*r), 2 * Z(*p) * Z(*p) - Y(*p) * Y(*p) + X(*p) * X(*p), P)
+//@   assume-ensures P11(*r) == pdbl(P3(*p))
+
+//@ func nielsAdd2P1p1Vartime(r, p, q, signbit)
+//@   requires red4(*p) && tvalid(*p) && rednb(*q) && (signbit == 0 || signbit == 1)
+//@   modifies *r
+//@   ensures mulok4(*r)
+//@   ensures signbit == 0 ==> cong(X(*r), (Y(*p) + X(*p)) * fval(q.xaddy) - (Y(*p) - X(*p)) * fval(q.ysubx), P)
+//@   ensures signbit == 0 ==> cong(Y(*r), (Y(*p) + X(*p)) * fval(q.xaddy) + (Y(*p) - X(*p)) * fval(q.ysubx), P)
+//@   ensures signbit == 0 ==> cong(Z(*r), 2 * Z(*p) + T(*p) * fval(q.t2d), P)
+//@   ensures signbit == 0 ==> cong(T(*r), 2 * Z(*p) - T(*p) * fval(q.t2d), P)
+//@   ensures signbit != 0 ==> cong(X(*r), (Y(*p) + X(*p)) * fval(q.ysubx) - (Y(*p) - X(*p)) * fval(q.xaddy), P)
+//@   ensures signbit != 0 ==> cong(Y(*r), (Y(*p) + X(*p)) * fval(q.ysubx) + (Y(*p) - X(*p)) * fval(q.xaddy), P)
+//@   ensures signbit != 0 ==> cong(Z(*r), 2 * Z(*p) - T(*p) * fval(q.t2d), P)
+//@   ensures signbit != 0 ==> cong(T(*r), 2 * Z(*p) + T(*p) * fval(q.t2d), P)
+//@   assume-ensures signbit == 0 ==> P11(*r) == padd(P3(*p), PN(*q))
+//@   assume-ensures signbit != 0 ==> P11(*r) == psub(P3(*p), PN(*q))
+
+//@ func pnielsAddP1P1Vartime(r, p, q, signbit)
+//@   requires red4(*p) && tvalid(*p) && okpn(*q) && (signbit == 0 || signbit == 1)
+//@   modifies *r
+//@   ensures mulok4(*r)
+//@   ensures signbit == 0 ==> cong(X(*r), (Y(*p) + X(*p)) * fval(q.xaddy) - (Y(*p) - X(*p)) * fval(q.ysubx), P)
+//@   ensures signbit == 0 ==> cong(Y(*r), (Y(*p) + X(*p)) * fval(q.xaddy) + (Y(*p) - X(*p)) * fval(q.ysubx), P)
+//@   ensures signbit == 0 ==> cong(Z(*r), 2 * Z(*p) * fval(q.z) + T(*p) * fval(q.t2d), P)
+//@   ensures signbit == 0 ==> cong(T(*r), 2 * Z(*p) * fval(q.z) - T(*p) * fval(q.t2d), P)
+//@   ensures signbit != 0 ==> cong(X(*r), (Y(*p) + X(*p)) * fval(q.ysubx) - (Y(*p) - X(*p)) * fval(q.xaddy), P)
+//@   ensures signbit != 0 ==> cong(Y(*r), (Y(*p) + X(*p)) * fval(q.ysubx) + (Y(*p) - X(*p)) * fval(q.xaddy), P)
+//@   ensures signbit != 0 ==> cong(Z(*r), 2 * Z(*p) * fval(q.z) - T(*p) * fval(q.t2d), P)
+//@   ensures signbit != 0 ==> cong(T(*r), 2 * Z(*p) * fval(q.z) + T(*p) * fval(q.t2d), P)
+//@   assume-ensures signbit == 0 ==> P11(*r) == padd(P3(*p), PPN(*q))
+//@   assume-ensures signbit != 0 ==> P11(*r) == psub(P3(*p), PPN(*q))
+
+//@ func doublePartial(r, p)
+//@   alias r==p
+//@   requires red3(*p)
+//@   modifies r.x, r.y, r.z
+//@   ensures red3(*r)
+//@   ensures P3(*r) == pdbl(P3(old(*p)))
+
+//@ func Double(r, p)
+//@   alias r==p
+//@   requires red3(*p)
+//@   modifies *r
+//@   ensures red4(*r) && tvalid(*r)
+//@   ensures P3(*r) == pdbl(P3(old(*p)))
+
+//@ func Add(r, p, q)
+//@   alias r==p | p==q | r==p==q
+//@   requires red4(*p) && tvalid(*p) && red4(*q) && tvalid(*q)
+//@   modifies *r
+//@   ensures red4(*r) && tvalid(*r)
+//@   ensures P3(*r) == padd(P3(old(*p)), P3(old(*q)))
+
+//@ func nielsAdd2(r, q)
+//@   requires red4(*r) && tvalid(*r) && rednb(*q)
+//@   modifies *r
+//@   ensures red4(*r) && tvalid(*r)
+//@   ensures cong(X(*r), ((Y(old(*r)) + X(old(*r))) * fval(q.xaddy) - (Y(old(*r)) - X(old(*r))) * fval(q.ysubx)) * (2 * Z(old(*r)) - T(old(*r)) * fval(q.t2d)), P)
+//@   ensures cong(Y(*r), ((Y(old(*r)) + X(old(*r))) * fval(q.xaddy) + (Y(old(*r)) - X(old(*r))) * fval(q.ysubx)) * (2 * Z(old(*r)) + T(old(*r)) * fval(q.t2d)), P)
+//@   ensures cong(Z(*r), (2 * Z(old(*r)) + T(old(*r)) * fval(q.t2d)) * (2 * Z(old(*r)) - T(old(*r)) * fval(q.t2d)), P)
+//@   assume-ensures P3(*r) == padd(P3(old(*r)), PN(*q))
+
+//@ func pnielsAdd(r, p, q)
+//@   alias r==q
+//@   requires red4(*p) && tvalid(*p) && okpn(*q)
+//@   modifies *r
+//@   ensures okpn(*r)
+//@   assume-ensures PPN(*r) == padd(P3(*p), PPN(old(*q)))
+
+// ---------------- cofactor_equal.go ----------------
+
+//@ func geSub(r, p, q)
+//@   requires red4(*p) && tvalid(*p) && okpn(*q)
+//@   modifies *r
+//@   ensures mulok4(*r)
+//@   ensures cong(X(*r), (Y(*p) + X(*p)) * fval(q.ysubx) - (Y(*p) - X(*p)) * fval(q.xaddy), P)
+//@   ensures cong(Y(*r), (Y(*p) + X(*p)) * fval(q.ysubx) + (Y(*p) - X(*p)) * fval(q.xaddy), P)
+//@   ensures cong(Z(*r), 2 * Z(*p) * fval(q.z) - fval(q.t2d) * T(*p), P)
+//@   ensures cong(T(*r), 2 * Z(*p) * fval(q.z) + fval(q.t2d) * T(*p), P)
+//@   assume-ensures P11(*r) == psub(P3(*p), PPN(*q))
+
+//@ func ProjectiveToExtended(r, p)
+//@   requires red3(*p)
+//@   modifies *r
+//@   ensures red4(*r) && tvalid(*r)
+//@   ensures cong(X(*r), X(*p) * Z(*p), P) && cong(Y(*r), Y(*p) * Z(*p), P) && cong(Z(*r), Z(*p) * Z(*p), P) && cong(T(*r), X(*p) * Y(*p), P)
+//@   assume-ensures P3(*r) == P3(*p)
+
+//@ func CofactorMultiply(r, p)
+//@   alias r==p
+//@   requires red3(*p)
+//@   modifies *r
+//@   ensures red4(*r) && tvalid(*r)
+//@   ensures P3(*r) == smul8(P3(old(*p)))
+
+//@ func IsNeutralVartime(q)
+//@   requires red3(*q)
+//@   modifies nothing
+//@   ensures result == (fe(q.x) == 0 && fe(q.y) == fe(q.z))
+//@   assume-ensures result == isneutral(P3(*q))
+
+//@ func CofactorEqual(p, q)
+//@   alias p==q
+//@   requires red4(*p) && tvalid(*p) && red4(*q) && tvalid(*q)
+//@   modifies nothing
+//@   ensures result == isneutral(smul8(psub(P3(*p), P3(*q))))
+
+// ---------------- pack & unpack ----------------
+
+//@ ufun encpt(Pt) Bytes
+//@ ufun decpt(Bytes) Pt
+//@ ufun decodable(Bytes) Bool
+
+//@ func Pack(r, p)
+//@   requires len(r) >= 32 && red3(*p)
+//@   modifies r[0:32]
+//@   cut before call Contract#1 havoc : mag(tx, RED) && mag(ty, RED) && feq(fval(tx), X(*p) * pow(Z(*p), P - 2), P) && feq(fval(ty), Y(*p) * pow(Z(*p), P - 2), P)
+//@   ensures le(r[0:32]) == (Y(*p) * pow(Z(*p), P - 2)) % P + (((X(*p) * pow(Z(*p), P - 2)) % P) % 2) << 255
+//@   assume-ensures bytesOf(r[0:32]) == encpt(P3(*p))
+
+//@ spec UU(y) = pow(y, 2) - 1
+//@ spec VV(y) = D * pow(y, 2) + 1
+
+//@ func UnpackNegativeVartime(r, p)
+//@   requires len(p) >= 32
+//@   modifies *r
+//@   ensures result ==> (mag(r.x, RED) && mag(r.y, CANON) && isone(r.z) && mag(r.t, RED) && tvalid(*r))
+//@   ensures result ==> fval(r.y) == le(p[0:32]) % (1<<255)
+//@   ensures result ==> cong(VV(fval(r.y)) * pow(X(*r), 2), UU(fval(r.y)), P)
+//@   ensures result ==> (fe(r.x) == 0 || fe(r.x) % 2 != p[31] >> 7)
+//@   assume-ensures result == decodable(bytesOf(p[0:32]))
+//@   assume-ensures result ==> P3(*r) == pneg(decpt(bytesOf(p[0:32])))
+
+//@ func UnpackVartime(r, p)
+//@   requires len(p) >= 32
+//@   modifies *r
+//@   ensures result ==> (mag(r.x, RED) && mag(r.y, CANON) && isone(r.z) && mag(r.t, RED) && tvalid(*r))
+//@   ensures result ==> fval(r.y) == le(p[0:32]) % (1<<255)
+//@   ensures result ==> cong(VV(fval(r.y)) * pow(X(*r), 2), UU(fval(r.y)), P)
+//@   ensures result ==> (fe(r.x) == 0 || fe(r.x) % 2 == p[31] >> 7)
+//@   assume-ensures result == decodable(bytesOf(p[0:32]))
+//@   assume-ensures result ==> P3(*r) == decpt(bytesOf(p[0:32]))
+
+// ---------------- conditional move, table lookup ----------------
+
+//@ config movecond_unsafe
+//@ func moveConditionalBytes(out, in, flag)
+//@   havoc-global unalignedOk
+//@   cases flag == 0 | flag == 1
+//@   modifies *out
+//@   ensures flag == 1 ==> *out == old(*in)
+//@   ensures flag == 0 ==> *out == old(*out)
+
+//@ config !movecond_unsafe
+//@ func moveConditionalBytes(out, in, flag)
+//@   cases flag == 0 | flag == 1
+//@   modifies *out
+//@   ensures flag == 1 ==> *out == old(*in)
+//@   ensures flag == 0 ==> *out == old(*out)
+//@ config any
+
+//@ ufun ptN0(Int, Int, Int) Pt
+//@ spec PN0(g) = ptN0(fe(g.ysubx), fe(g.xaddy), fe(g.t2d))
+// validity of a niels triple (y-x, y+x, 2xy) resp. (y-x, y+x, 2dxy): (y+x)^2 - (y-x)^2 = 4xy
+//@ spec nvalid0(g) = cong(2 * fval(g.t2d), fval(g.xaddy) * fval(g.xaddy) - fval(g.ysubx) * fval(g.ysubx), P)
+//@ spec nvalid(g) = cong(2 * fval(g.t2d), D * (fval(g.xaddy) * fval(g.xaddy) - fval(g.ysubx) * fval(g.ysubx)), P)
+// negation of a niels point: swap y-x and y+x, negate the t component  [bridge B12, part of M2]
+//@ axiom NEGN [M2]: all(a, all(b, all(c, all(k, ptN(a, b, c) == mulB(k) ==> ptN(b, a, (P - c) % P) == mulB(0 - k)))))
+//@ axiom NEGN0 [M2]: all(a, all(b, all(c, all(k, ptN0(a, b, c) == mulB(k) ==> ptN0(b, a, (P - c) % P) == mulB(0 - k)))))
+
+// Table lookup. NielsBaseMultiples[8*pos+j] is (j+1)*256^pos*B in packed form (y-x, y+x, 2xy) for
+// pos = 0 and (y-x, y+x, 2dxy) for pos > 0; these 256 facts are validated by the ground back end.
+//@ config !asm
+//@ func scalarmultBaseChooseNiels(t, table, pos, b)
+//@   bind table = &NielsBaseMultiples
+//@   inline Expand, SwapConditional, Neg, moveConditionalBytes, windowbEqual
+//@   cases pos == 0 && b == -8 | pos == 0 && b == -7 | pos == 0 && b == -6 | pos == 0 && b == -5 | pos == 0 && b == -4 | pos == 0 && b == -3 | pos == 0 && b == -2 | pos == 0 && b == -1 | pos == 0 && b == 0 | pos == 0 && b == 1 | pos == 0 && b == 2 | pos == 0 && b == 3 | pos == 0 && b == 4 | pos == 0 && b == 5 | pos == 0 && b == 6 | pos == 0 && b == 7 | pos == 0 && b == 8 | pos == 1 && b == -8 | pos == 1 && b == -7 | pos == 1 && b == -6 | pos == 1 && b == -5 | pos == 1 && b == -4 | pos == 1 && b == -3 | pos == 1 && b == -2 | pos == 1 && b == -1 | pos == 1 && b == 0 | pos == 1 && b == 1 | pos == 1 && b == 2 | pos == 1 && b == 3 | pos == 1 && b == 4 | pos == 1 && b == 5 | pos == 1 && b == 6 | pos == 1 && b == 7 | pos == 1 && b == 8 | pos == 2 && b == -8 | pos == 2 && b == -7 | pos == 2 && b == -6 | pos == 2 && b == -5 | pos == 2 && b == -4 | pos == 2 && b == -3 | pos == 2 && b == -2 | pos == 2 && b == -1 | pos == 2 && b == 0 | pos == 2 && b == 1 | pos == 2 && b == 2 | pos == 2 && b == 3 | pos == 2 && b == 4 | pos == 2 && b == 5 | pos == 2 && b == 6 | pos == 2 && b == 7 | pos == 2 && b == 8 | pos == 3 && b == -8 | pos == 3 && b == -7 | pos == 3 && b == -6 | pos == 3 && b == -5 | pos == 3 && b == -4 | pos == 3 && b == -3 | pos == 3 && b == -2 | pos == 3 && b == -1 | pos == 3 && b == 0 | pos == 3 && b == 1 | pos == 3 && b == 2 | pos == 3 && b == 3 | pos == 3 && b == 4 | pos == 3 && b == 5 | pos == 3 && b == 6 | pos == 3 && b == 7 | pos == 3 && b == 8 | pos == 4 && b == -8 | pos == 4 && b == -7 | pos == 4 && b == -6 | pos == 4 && b == -5 | pos == 4 && b == -4 | pos == 4 && b == -3 | pos == 4 && b == -2 | pos == 4 && b == -1 | pos == 4 && b == 0 | pos == 4 && b == 1 | pos == 4 && b == 2 | pos == 4 && b == 3 | pos == 4 && b == 4 | pos == 4 && b == 5 | pos == 4 && b == 6 | pos == 4 && b == 7 | pos == 4 && b == 8 | pos == 5 && b == -8 | pos == 5 && b == -7 | pos == 5 && b == -6 | pos == 5 && b == -5 | pos == 5 && b == -4 | pos == 5 && b == -3 | pos == 5 && b == -2 | pos == 5 && b == -1 | pos == 5 && b == 0 | pos == 5 && b == 1 | pos == 5 && b == 2 | pos == 5 && b == 3 | pos == 5 && b == 4 | pos == 5 && b == 5 | pos == 5 && b == 6 | pos == 5 && b == 7 | pos == 5 && b == 8 | pos == 6 && b == -8 | pos == 6 && b == -7 | pos == 6 && b == -6 | pos == 6 && b == -5 | pos == 6 && b == -4 | pos == 6 && b == -3 | pos == 6 && b == -2 | pos == 6 && b == -1 | pos == 6 && b == 0 | pos == 6 && b == 1 | pos == 6 && b == 2 | pos == 6 && b == 3 | pos == 6 && b == 4 | pos == 6 && b == 5 | pos == 6 && b == 6 | pos == 6 && b == 7 | pos == 6 && b == 8 | pos == 7 && b == -8 | pos == 7 && b == -7 | pos == 7 && b == -6 | pos == 7 && b == -5 | pos == 7 && b == -4 | pos == 7 && b == -3 | pos == 7 && b == -2 | pos == 7 && b == -1 | pos == 7 && b == 0 | pos == 7 && b == 1 | pos == 7 && b == 2 | pos == 7 && b == 3 | pos == 7 && b == 4 | pos == 7 && b == 5 | pos == 7 && b == 6 | pos == 7 && b == 7 | pos == 7 && b == 8 | pos == 8 && b == -8 | pos == 8 && b == -7 | pos == 8 && b == -6 | pos == 8 && b == -5 | pos == 8 && b == -4 | pos == 8 && b == -3 | pos == 8 && b == -2 | pos == 8 && b == -1 | pos == 8 && b == 0 | pos == 8 && b == 1 | pos == 8 && b == 2 | pos == 8 && b == 3 | pos == 8 && b == 4 | pos == 8 && b == 5 | pos == 8 && b == 6 | pos == 8 && b == 7 | pos == 8 && b == 8 | pos == 9 && b == -8 | pos == 9 && b == -7 | pos == 9 && b == -6 | pos == 9 && b == -5 | pos == 9 && b == -4 | pos == 9 && b == -3 | pos == 9 && b == -2 | pos == 9 && b == -1 | pos == 9 && b == 0 | pos == 9 && b == 1 | pos == 9 && b == 2 | pos == 9 && b == 3 | pos == 9 && b == 4 | pos == 9 && b == 5 | pos == 9 && b == 6 | pos == 9 && b == 7 | pos == 9 && b == 8 | pos == 10 && b == -8 | pos == 10 && b == -7 | pos == 10 && b == -6 | pos == 10 && b == -5 | pos == 10 && b == -4 | pos == 10 && b == -3 | pos == 10 && b == -2 | pos == 10 && b == -1 | pos == 10 && b == 0 | pos == 10 && b == 1 | pos == 10 && b == 2 | pos == 10 && b == 3 | pos == 10 && b == 4 | pos == 10 && b == 5 | pos == 10 && b == 6 | pos == 10 && b == 7 | pos == 10 && b == 8 | pos == 11 && b == -8 | pos == 11 && b == -7 | pos == 11 && b == -6 | pos == 11 && b == -5 | pos == 11 && b == -4 | pos == 11 && b == -3 | pos == 11 && b == -2 | pos == 11 && b == -1 | pos == 11 && b == 0 | pos == 11 && b == 1 | pos == 11 && b == 2 | pos == 11 && b == 3 | pos == 11 && b == 4 | pos == 11 && b == 5 | pos == 11 && b == 6 | pos == 11 && b == 7 | pos == 11 && b == 8 | pos == 12 && b == -8 | pos == 12 && b == -7 | pos == 12 && b == -6 | pos == 12 && b == -5 | pos == 12 && b == -4 | pos == 12 && b == -3 | pos == 12 && b == -2 | pos == 12 && b == -1 | pos == 12 && b == 0 | pos == 12 && b == 1 | pos == 12 && b == 2 | pos == 12 && b == 3 | pos == 12 && b == 4 | pos == 12 && b == 5 | pos == 12 && b == 6 | pos == 12 && b == 7 | pos == 12 && b == 8 | pos == 13 && b == -8 | pos == 13 && b == -7 | pos == 13 && b == -6 | pos == 13 && b == -5 | pos == 13 && b == -4 | pos == 13 && b == -3 | pos == 13 && b == -2 | pos == 13 && b == -1 | pos == 13 && b == 0 | pos == 13 && b == 1 | pos == 13 && b == 2 | pos == 13 && b == 3 | pos == 13 && b == 4 | pos == 13 && b == 5 | pos == 13 && b == 6 | pos == 13 && b == 7 | pos == 13 && b == 8 | pos == 14 && b == -8 | pos == 14 && b == -7 | pos == 14 && b == -6 | pos == 14 && b == -5 | pos == 14 && b == -4 | pos == 14 && b == -3 | pos == 14 && b == -2 | pos == 14 && b == -1 | pos == 14 && b == 0 | pos == 14 && b == 1 | pos == 14 && b == 2 | pos == 14 && b == 3 | pos == 14 && b == 4 | pos == 14 && b == 5 | pos == 14 && b == 6 | pos == 14 && b == 7 | pos == 14 && b == 8 | pos == 15 && b == -8 | pos == 15 && b == -7 | pos == 15 && b == -6 | pos == 15 && b == -5 | pos == 15 && b == -4 | pos == 15 && b == -3 | pos == 15 && b == -2 | pos == 15 && b == -1 | pos == 15 && b == 0 | pos == 15 && b == 1 | pos == 15 && b == 2 | pos == 15 && b == 3 | pos == 15 && b == 4 | pos == 15 && b == 5 | pos == 15 && b == 6 | pos == 15 && b == 7 | pos == 15 && b == 8 | pos == 16 && b == -8 | pos == 16 && b == -7 | pos == 16 && b == -6 | pos == 16 && b == -5 | pos == 16 && b == -4 | pos == 16 && b == -3 | pos == 16 && b == -2 | pos == 16 && b == -1 | pos == 16 && b == 0 | pos == 16 && b == 1 | pos == 16 && b == 2 | pos == 16 && b == 3 | pos == 16 && b == 4 | pos == 16 && b == 5 | pos == 16 && b == 6 | pos == 16 && b == 7 | pos == 16 && b == 8 | pos == 17 && b == -8 | pos == 17 && b == -7 | pos == 17 && b == -6 | pos == 17 && b == -5 | pos == 17 && b == -4 | pos == 17 && b == -3 | pos == 17 && b == -2 | pos == 17 && b == -1 | pos == 17 && b == 0 | pos == 17 && b == 1 | pos == 17 && b == 2 | pos == 17 && b == 3 | pos == 17 && b == 4 | pos == 17 && b == 5 | pos == 17 && b == 6 | pos == 17 && b == 7 | pos == 17 && b == 8 | pos == 18 && b == -8 | pos == 18 && b == -7 | pos == 18 && b == -6 | pos == 18 && b == -5 | pos == 18 && b == -4 | pos == 18 && b == -3 | pos == 18 && b == -2 | pos == 18 && b == -1 | pos == 18 && b == 0 | pos == 18 && b == 1 | pos == 18 && b == 2 | pos == 18 && b == 3 | pos == 18 && b == 4 | pos == 18 && b == 5 | pos == 18 && b == 6 | pos == 18 && b == 7 | pos == 18 && b == 8 | pos == 19 && b == -8 | pos == 19 && b == -7 | pos == 19 && b == -6 | pos == 19 && b == -5 | pos == 19 && b == -4 | pos == 19 && b == -3 | pos == 19 && b == -2 | pos == 19 && b == -1 | pos == 19 && b == 0 | pos == 19 && b == 1 | pos == 19 && b == 2 | pos == 19 && b == 3 | pos == 19 && b == 4 | pos == 19 && b == 5 | pos == 19 && b == 6 | pos == 19 && b == 7 | pos == 19 && b == 8 | pos == 20 && b == -8 | pos == 20 && b == -7 | pos == 20 && b == -6 | pos == 20 && b == -5 | pos == 20 && b == -4 | pos == 20 && b == -3 | pos == 20 && b == -2 | pos == 20 && b == -1 | pos == 20 && b == 0 | pos == 20 && b == 1 | pos == 20 && b == 2 | pos == 20 && b == 3 | pos == 20 && b == 4 | pos == 20 && b == 5 | pos == 20 && b == 6 | pos == 20 && b == 7 | pos == 20 && b == 8 | pos == 21 && b == -8 | pos == 21 && b == -7 | pos == 21 && b == -6 | pos == 21 && b == -5 | pos == 21 && b == -4 | pos == 21 && b == -3 | pos == 21 && b == -2 | pos == 21 && b == -1 | pos == 21 && b == 0 | pos == 21 && b == 1 | pos == 21 && b == 2 | pos == 21 && b == 3 | pos == 21 && b == 4 | pos == 21 && b == 5 | pos == 21 && b == 6 | pos == 21 && b == 7 | pos == 21 && b == 8 | pos == 22 && b == -8 | pos == 22 && b == -7 | pos == 22 && b == -6 | pos == 22 && b == -5 | pos == 22 && b == -4 | pos == 22 && b == -3 | pos == 22 && b == -2 | pos == 22 && b == -1 | pos == 22 && b == 0 | pos == 22 && b == 1 | pos == 22 && b == 2 | pos == 22 && b == 3 | pos == 22 && b == 4 | pos == 22 && b == 5 | pos == 22 && b == 6 | pos == 22 && b == 7 | pos == 22 && b == 8 | pos == 23 && b == -8 | pos == 23 && b == -7 | pos == 23 && b == -6 | pos == 23 && b == -5 | pos == 23 && b == -4 | pos == 23 && b == -3 | pos == 23 && b == -2 | pos == 23 && b == -1 | pos == 23 && b == 0 | pos == 23 && b == 1 | pos == 23 && b == 2 | pos == 23 && b == 3 | pos == 23 && b == 4 | pos == 23 && b == 5 | pos == 23 && b == 6 | pos == 23 && b == 7 | pos == 23 && b == 8 | pos == 24 && b == -8 | pos == 24 && b == -7 | pos == 24 && b == -6 | pos == 24 && b == -5 | pos == 24 && b == -4 | pos == 24 && b == -3 | pos == 24 && b == -2 | pos == 24 && b == -1 | pos == 24 && b == 0 | pos == 24 && b == 1 | pos == 24 && b == 2 | pos == 24 && b == 3 | pos == 24 && b == 4 | pos == 24 && b == 5 | pos == 24 && b == 6 | pos == 24 && b == 7 | pos == 24 && b == 8 | pos == 25 && b == -8 | pos == 25 && b == -7 | pos == 25 && b == -6 | pos == 25 && b == -5 | pos == 25 && b == -4 | pos == 25 && b == -3 | pos == 25 && b == -2 | pos == 25 && b == -1 | pos == 25 && b == 0 | pos == 25 && b == 1 | pos == 25 && b == 2 | pos == 25 && b == 3 | pos == 25 && b == 4 | pos == 25 && b == 5 | pos == 25 && b == 6 | pos == 25 && b == 7 | pos == 25 && b == 8 | pos == 26 && b == -8 | pos == 26 && b == -7 | pos == 26 && b == -6 | pos == 26 && b == -5 | pos == 26 && b == -4 | pos == 26 && b == -3 | pos == 26 && b == -2 | pos == 26 && b == -1 | pos == 26 && b == 0 | pos == 26 && b == 1 | pos == 26 && b == 2 | pos == 26 && b == 3 | pos == 26 && b == 4 | pos == 26 && b == 5 | pos == 26 && b == 6 | pos == 26 && b == 7 | pos == 26 && b == 8 | pos == 27 && b == -8 | pos == 27 && b == -7 | pos == 27 && b == -6 | pos == 27 && b == -5 | pos == 27 && b == -4 | pos == 27 && b == -3 | pos == 27 && b == -2 | pos == 27 && b == -1 | pos == 27 && b == 0 | pos == 27 && b == 1 | pos == 27 && b == 2 | pos == 27 && b == 3 | pos == 27 && b == 4 | pos == 27 && b == 5 | pos == 27 && b == 6 | pos == 27 && b == 7 | pos == 27 && b == 8 | pos == 28 && b == -8 | pos == 28 && b == -7 | pos == 28 && b == -6 | pos == 28 && b == -5 | pos == 28 && b == -4 | pos == 28 && b == -3 | pos == 28 && b == -2 | pos == 28 && b == -1 | pos == 28 && b == 0 | pos == 28 && b == 1 | pos == 28 && b == 2 | pos == 28 && b == 3 | pos == 28 && b == 4 | pos == 28 && b == 5 | pos == 28 && b == 6 | pos == 28 && b == 7 | pos == 28 && b == 8 | pos == 29 && b == -8 | pos == 29 && b == -7 | pos == 29 && b == -6 | pos == 29 && b == -5 | pos == 29 && b == -4 | pos == 29 && b == -3 | pos == 29 && b == -2 | pos == 29 && b == -1 | pos == 29 && b == 0 | pos == 29 && b == 1 | pos == 29 && b == 2 | pos == 29 && b == 3 | pos == 29 && b == 4 | pos == 29 && b == 5 | pos == 29 && b == 6 | pos == 29 && b == 7 | pos == 29 && b == 8 | pos == 30 && b == -8 | pos == 30 && b == -7 | pos == 30 && b == -6 | pos == 30 && b == -5 | pos == 30 && b == -4 | pos == 30 && b == -3 | pos == 30 && b == -2 | pos == 30 && b == -1 | pos == 30 && b == 0 | pos == 30 && b == 1 | pos == 30 && b == 2 | pos == 30 && b == 3 | pos == 30 && b == 4 | pos == 30 && b == 5 | pos == 30 && b == 6 | pos == 30 && b == 7 | pos == 30 && b == 8 | pos == 31 && b == -8 | pos == 31 && b == -7 | pos == 31 && b == -6 | pos == 31 && b == -5 | pos == 31 && b == -4 | pos == 31 && b == -3 | pos == 31 && b == -2 | pos == 31 && b == -1 | pos == 31 && b == 0 | pos == 31 && b == 1 | pos == 31 && b == 2 | pos == 31 && b == 3 | pos == 31 && b == 4 | pos == 31 && b == 5 | pos == 31 && b == 6 | pos == 31 && b == 7 | pos == 31 && b == 8
+//@   modifies *t
+//@   ensures rednb(*t)
+//@   ensures pos == 0 ==> (PN0(*t) == mulB(b) && nvalid0(*t))
+//@   ensures pos > 0 ==> (PN(*t) == mulB(b * pow2(8 * pos)) && nvalid(*t))
+
+//@ config asm
+//@ func scalarmultBaseChooseNiels(t, table, pos, b)
+//@   assumed
+//@   bind table = &NielsBaseMultiples
+//@   requires 0 <= pos && pos < 32 && -8 <= b && b <= 8
+//@   modifies *t
+//@   ensures rednb(*t)
+//@   ensures pos == 0 ==> (PN0(*t) == mulB(b) && nvalid0(*t))
+//@   ensures pos > 0 ==> (PN(*t) == mulB(b * pow2(8 * pos)) && nvalid(*t))
+//@ config any
+
+// ---------------- scalar multiplications ----------------
+
+// group laws on multiples of the base point  [M2]
+//@ axiom GADD [M2]: all(a, all(b, padd(mulB(a), mulB(b)) == mulB(a + b)))
+//@ axiom GDBL [M2]: all(a, pdbl(mulB(a)) == mulB(2 * a))
+// multiplying the t component of (y-x, y+x, 2xy) by d gives the form (y-x, y+x, 2dxy) of the same point  [bridge]
+//@ axiom N0TON [M2]: all(a, all(b, all(c, all(k, ptN0(a, b, c) == mulB(k) ==> ptN(a, b, (c * D) % P) == mulB(k)))))
+
+//@ func ScalarmultBaseNiels(r, basepointTable, s)
+//@   bind basepointTable = &NielsBaseMultiples
+//@   uses GADD, GDBL, N0TON
+//@   requires canon(*s) && sval(*s) < 1<<255
+//@   modifies *r
+//@   lemma before call scalarmultBaseChooseNiels#2 : red4(*r) && tvalid(*r) ;; assume P3(*r) == mulB(b[1])
+//@   lemma after call Mul#1 : PN(t) == mulB(b[0]) && nvalid(t)
+//@   ensures red4(*r) && tvalid(*r)
+//@   ensures P3(*r) == mulB(sval(old(*s)))
+
+// [s1]p1 + [s2]B by interleaved sliding windows. Proved of the body: memory safety, the
+// magnitude discipline at every call site and the frame. The group-level result is ASSUMED
+// (it rests on the assumed digit property of ContractSlidingWindow and on a Horner invariant
+// over a data-dependent loop that is not discharged).
+//@ func DoubleScalarmultVartime(r, p1, s1, s2)
+//@   requires red4(*p1) && tvalid(*p1) && canon(*s1) && canon(*s2)
+//@   modifies *r
+//@   loop#2 modifies i
+//@   loop#2 invariant -1 <= i && i <= 255
+//@   loop#3 modifies i, *r, t
+//@   loop#3 invariant -1 <= i && i <= 255 && red3(*r)
+//@   ensures red3(*r)
+//@   assume-ensures (sval(*s1) < 1<<253 && sval(*s2) < 1<<253) ==> P3(*r) == lc2(P3(*p1), sval(*s1), sval(*s2))
